@@ -3,11 +3,17 @@ PROP = dict(
         tie_coq=["Properties/TieC06.v"],
         workloads=[
             dict(name="amm-pure", go_test="TestC06Pure", runner="C06",
+<<<<<<< HEAD
                  env=dict(quick=dict(VERIF_CASES=4000, VERIF_SMALL=4), thorough=dict(VERIF_CASES=40000, VERIF_SMALL=10))),
+=======
+                 env=dict(quick=dict(VERIF_CASES=3000, VERIF_SMALL=4), thorough=dict(VERIF_CASES=60000, VERIF_SMALL=12))),
+>>>>>>> liq2
             dict(name="amm-sequences", go_test="TestC06Seq", runner="C06",
-                 env=dict(quick=dict(VERIF_CASES=250), thorough=dict(VERIF_CASES=5000))),
+                 env=dict(quick=dict(VERIF_CASES=170), thorough=dict(VERIF_CASES=5000))),
             dict(name="amm-ranged", go_test="TestC06Ranged", runner="C06",
-                 env=dict(quick=dict(VERIF_CASES=70), thorough=dict(VERIF_CASES=1500))),
+                 env=dict(quick=dict(VERIF_CASES=45), thorough=dict(VERIF_CASES=1500))),
+            dict(name="liquidity-keeper", go_test="TestC06Keeper", runner="C06-keeper",
+                 env=dict(quick=dict(VERIF_CASES=14), thorough=dict(VERIF_CASES=500))),
         ],
         exhaustive_in=dict(thorough=True),
         rule="amm-pure: case = one call of the real amm.Deposit / amm.Withdraw / InitialPoolCoinSupply; first every (rx,ry,ps,x,y) in 0..S (ps=0 is the panic path) "
@@ -17,7 +23,14 @@ PROP = dict(
              "(depleted -> fail, pc=0 -> fail, x=y=0 -> fail), incl. last-share redemptions, pc=ps-1, pc=ps+1, tiny deposits into big pools; non-trivial = at least one executed deposit and one executed withdrawal. "
              "amm-ranged: case = CreateRangedPool on an admissible (min,max,initial) triple (min from 10^-15 to 10^19, gap from exactly 0.1% to 10^10x, max up to 10^20, initial at/next to both bounds and inside; 3% inadmissible) "
              "or NewRangedPool on arbitrary reserves (one-sided, in-range ratio, arbitrary), then 3-15 deposits/withdrawals, with pool.Price() after every step and BuyAmountOver/SellAmountUnder at prices at, outside and inside the range; "
-             "the first four cases are the fixed witnesses of C06-F1/C06-F2; non-trivial = a price was observed. distinct by digest of the case's inputs and operations",
+             "the first four cases are the fixed witnesses of C06-F1/C06-F2; non-trivial = a price was observed. distinct by digest of the case's inputs and operations. "
+             "liquidity-keeper: case = the C04 custody history through the REAL msg server / EndBlocker with three apps whose pairs and pools have the SAME ids (pair coins rotated per app), "
+             "withdraw fee rates {0, 0.3%, 50%}, a warm-up batch in which liquidity providers deposit into every pool, then 3-8 batches of 8-23 ops, 80% pool ops (deposit / withdraw / farm / unfarm / "
+             "deposit-and-farm / unfarm-and-withdraw), 18% of them cross-app attempts (the message names (app, pool id) with the pool coin / pair coins of another app's pool of the same id; half by the creator, "
+             "who holds shares of every pool); after EVERY step and for EVERY pool the runner projects (reserve x, reserve y, share supply) from the observed reserve balances and bank supply, replays "
+             "Pool.deposit / Pool.withdraw on them for every request executed on that pool (in the EndBlocker's order, after the pool's recorded swap flows) and compares accepted / minted / paid amounts, "
+             "evaluates holds_C06_deposit / holds_C06_withdraw / holds_C06_value on the implementation's amounts, and holds_C06_untouched: what was observed after the step is exactly what the executed "
+             "requests (and swaps) explain - a step that executes nothing on a pool leaves its reserves and supply exactly as they were; non-trivial = at least one request was executed",
         modelled=["the reserve/supply threading of keeper.ExecuteDepositRequest/ExecuteWithdrawRequest around the real amm calls (bank, escrow and request status are C04's Liquidity model)",
                   "ApproxSqrt/Power intermediate overflow panics inside the Newton loop (sizes are bounded by the admissible price range; never observed)"],
         assumptions=["amounts non-negative, 0 < pc <= ps for a withdrawal (the shares were escrowed from the withdrawer), fee rate in [0,1]",
@@ -25,8 +38,8 @@ PROP = dict(
     )
 
 MANIFEST = dict(
-    level_text="For all non-negative integers (no size bound: the SafeMath overflow fallback is part of the model) amm.Deposit never accepts more than offered and mints shares at no better than reserves per share (exact against the offer, slack rx*ps*10^-18 against the accepted amounts, shown attained), amm.Withdraw never returns more than the pro-rata share reduced by the fee (exact), the last shares redeem the entire reserves, neither call panics on a live pool; lifted by induction to every finite history of deposits and withdrawals on a basic or ranged pool: reserves per share never fall below (1-10^-18)^n >= 1-n*10^-18 of their initial value, n = number of deposits. Ranged order-book clamps never exceed the reserves. The ranged-pool price clause is proved only for exact arithmetic (idealised square roots, over Q); for the code it is refuted by two witnesses (fresh pool 82% below min through the single-asset shortcut of DeriveTranslation; single-asset pool 15% above max) listed as known findings, and otherwise measured on every run.",
+    level_text="For all non-negative integers (no size bound: the SafeMath overflow fallback is part of the model) amm.Deposit never accepts more than offered and mints shares at no better than reserves per share (exact against the offer, slack rx*ps*10^-18 against the accepted amounts, shown attained), amm.Withdraw never returns more than the pro-rata share reduced by the fee (exact), the last shares redeem the entire reserves, neither call panics on a live pool; lifted by induction to every finite history of deposits and withdrawals on a basic or ranged pool: reserves per share never fall below (1-10^-18)^n >= 1-n*10^-18 of their initial value, n = number of deposits. Ranged order-book clamps never exceed the reserves. Through the keeper: a pool message that carries any pool coin other than the named pool's own (in particular the shares of another app's pool with the same pool id), or deposit coins outside the pool's pair, is rejected and changes nothing (model theorem; the keeper workload checks it on the real msg server for every pool after every step). The ranged-pool price clause is proved only for exact arithmetic (idealised square roots, over Q); for the code it is refuted by two witnesses (fresh pool 82% below min through the single-asset shortcut of DeriveTranslation; single-asset pool 15% above max) listed as known findings, and otherwise measured on every run.",
     design_ref="DESIGN.md section 4 C06",
-    level_note="Trusted: Coq kernel, extraction (ExtrOcamlBasic), OCaml runner, Go harness; the model of cosmossdk.io/math (Lib/DecArith) is tied by the DEC correspondence target. No axioms (every theorem Closed under the global context). The sequence workload threads reserves through the real amm calls itself (the keeper's bank side is C04).",
+    level_note="Trusted: Coq kernel, extraction (ExtrOcamlBasic), OCaml runner, Go harness; the model of cosmossdk.io/math (Lib/DecArith) is tied by the DEC correspondence target. No axioms (every theorem Closed under the global context). The sequence workload threads reserves through the real amm calls itself; the keeper workload observes reserves and supply on the real keeper (swaps against a pool enter as the recorded flows; they are C05's subject).",
     technique="Coq proof (algebraic laws over Z with exact sdk.Dec rounding, induction over operation histories, idealised curve lemma over Q) + model/implementation correspondence run of the real amm package with the extracted predicates judging the implementation's outputs",
 )
